@@ -210,7 +210,11 @@ class Interp:
         except Undecided as u:
             if not self.allow_fork:
                 raise AnalysisError(f"undecided predicate (forking disabled): {u.descr}")
-            return self.path.choose(descr or u.descr)
+            # the same predicate over the same abstract operands has one truth value per path
+            cache = self.path.__dict__.setdefault("preds", {})
+            if u.descr not in cache:
+                cache[u.descr] = self.path.choose(descr or u.descr)
+            return cache[u.descr]
 
     # -----------------------------------------------------------------------------------------
     # calling repo functions
@@ -1179,6 +1183,13 @@ class Frame:
                 return it.concrete() in c.concrete()
             if it.is_concrete() and len(it.concrete()) == 1:
                 return c.contains_char(it.concrete())
+            if it.is_concrete() and it.concrete():
+                w = it.concrete()
+                if any(isinstance(pc, str) and w in pc for pc in c.pieces):
+                    return True
+                # a match outside the literal pieces needs at least one character of an atom
+                if all(isinstance(pc, str) or (isinstance(pc, av.Atom) and all(ch in pc.excludes for ch in set(w))) for pc in c.pieces):
+                    return False
             if c.is_concrete() and len(it.pieces) == 1 and isinstance(it.pieces[0], av.Atom):
                 at = it.pieces[0]
                 if at.nonempty and all(ch in at.excludes for ch in c.concrete()):
